@@ -563,6 +563,10 @@ package lib
 // is a currently tracked, Valid registration stored under the string form of that phantom address, under its own key.
 //@ func (regManager *RegistrationManager) GetRegistrations(phantomAddr net.IP) map[string]transports.Registration
 //@   requires regManager != nil && regManager.registeredDecoys != nil && !held(&regManager.registeredDecoys.m) && rheld(&regManager.registeredDecoys.m) == 0
+// C03/C09: the look-up every transport performs on every read takes the registry lock exactly through the registry's own
+// operation and never while already holding it (a recursive read lock wedges the registry as soon as a writer waits in
+// between - every handler then stops reading)
+//@   ensures @C03 @C09: !held(&regManager.registeredDecoys.m) && rheld(&regManager.registeredDecoys.m) == 0
 //@   let r := regManager.registeredDecoys
 //@   ensures @C02: forall k string :: k in result ==> k in r.decoys[ipString(phantomAddr)] && r.decoys[ipString(phantomAddr)][k].Valid && result[k] == box(r.decoys[ipString(phantomAddr)][k])
 // C04: nothing the registry returned is lost in the conversion
